@@ -39,14 +39,6 @@ type world struct {
 	dbg   *scripted
 }
 
-// newRawWorld: OptDebugger with a fast.Debugger that answers every callback itself (fast/debug.go alone, no fast/debug layer)
-func newRawWorld() *world {
-	w := newWorld(true)
-	w.dbg.stock = nil
-	w.ir.Comp.Globals.Readline = nil
-	return w
-}
-
 func newWorld(debugger bool) *world {
 	w := &world{}
 	w.ir = fast.New()
@@ -566,7 +558,7 @@ func main() {
 	}
 	corpus := startCorpus()
 
-	wp, wd, wr := newWorld(false), newWorld(true), newRawWorld()
+	wp, wd := newWorld(false), newWorld(true)
 	cw := vh.NewCases(a, "From Coq Require Import List ZArith Bool.\nFrom Verif Require Import C19.Model.\nImport ListNotations.\nOpen Scope Z_scope.", "case", "mismatches", perShard)
 	wdg := vh.NewWatchdog(rep, 60*time.Second)
 	idx := 0
@@ -585,11 +577,6 @@ func main() {
 		if e := vh.Catch(func() { wd.ir.Eval(p.Decls) }); e != nil {
 			fail(fmt.Sprint("decl:", p.ID), "declarations rejected with OptDebugger", p, fmt.Sprint(e), nil)
 			wd = newWorld(true)
-			continue
-		}
-		if e := vh.Catch(func() { wr.ir.Eval(p.Decls) }); e != nil {
-			fail(fmt.Sprint("decl:", p.ID), "declarations rejected with OptDebugger (raw debugger)", p, fmt.Sprint(e), nil)
-			wr = newRawWorld()
 			continue
 		}
 		r0 := wp.run(p.Call, false, "", 'c', 100000)
@@ -668,23 +655,20 @@ func main() {
 			if sc.raw {
 				key += "|raw"
 			}
-			var r2 runRes
+			// raw layer: the same interpreter (same source positions), the scripted fast.Debugger answers every callback
+			// itself instead of passing it to the stock debugger
+			stock := wd.dbg.stock
 			if sc.raw {
-				r2 = wr.run(p.Call, sc.debug, sc.s, 'c', 1700)
-			} else {
-				r2 = wd.run(p.Call, sc.debug, sc.s, 'c', 1700)
+				wd.dbg.stock = nil
 			}
+			r2 := wd.run(p.Call, sc.debug, sc.s, 'c', 1700)
+			wd.dbg.stock = stock
 			ok := true
 			if !same(r2) {
 				fail(key, "not transparent: result / side effects under the scripted debugger differ from the plain run", in,
 					fmt.Sprint(r2.Result, r2.Emits, r2.Panic), fmt.Sprint(r0.Result, r0.Emits))
-				if sc.raw {
-					wr = newRawWorld()
-					vh.Catch(func() { wr.ir.Eval(p.Decls) })
-				} else {
-					wd = newWorld(true)
-					vh.Catch(func() { wd.ir.Eval(p.Decls) })
-				}
+				wd = newWorld(true)
+				vh.Catch(func() { wd.ir.Eval(p.Decls) })
 				ok = false
 			}
 			st, merr := mapStops(tr, r2.Recs)
